@@ -89,7 +89,7 @@ def add_scalar_keywords(rng, s, kinds):
     if rng.random() < 0.15:
         s["enum"] = [gen_literal(rng) for _ in range(rng.randint(1, 4))]
     if rng.random() < 0.08:
-        s["description"] = rng.choice(["a thing", "Some description.", "x"])
+        s["description"] = rng.choice(["a thing", "Some description.", "x", "Two lines:\n  indented second", " leading blank", "trailing newline\n"])
 
 
 def gen_schema(rng, cfg=None, depth=0, force_kind=None):
@@ -361,6 +361,10 @@ def gen_array(rng, s, depth):
     if s.get("uniqueItems") and len(out) >= 2 and rng.random() < 0.4:
         i, j = rng.sample(range(len(out)), 2)
         out[j] = copy.deepcopy(out[i]) if rng.random() < 0.5 else lookalike(rng, copy.deepcopy(out[i]))
+    if s.get("uniqueItems") and rng.random() < 0.25:
+        # unhashable members (the validator's slow path) that are equal / look alike: [1] vs [1.0], {"a": 2} vs {"a": 2.0}, [True] vs [1]
+        base = rng.choice([[1], {"a": 2}, [[0]], {"n": [100]}, [True], {"a": False}])
+        out = out[:3] + [copy.deepcopy(base), rng.choice([copy.deepcopy(base), lookalike(rng, copy.deepcopy(base))])]
     return out
 
 
@@ -382,6 +386,18 @@ def gen_object(rng, s, depth):
         if rng.random() < 0.6:
             k = rng.choice(hints.get(pat, ["a"]))
             out[k] = gen_value(rng, sub, depth + 1)
+    if len(pp) >= 2 and rng.random() < 0.6:
+        # a key matched by SEVERAL patterns (each of them applies), with a value aimed at one of their schemas
+        import re as _re
+        pats = list(pp)
+        for cand in ["ab", "a b", "b1", "abc", "p_1", "x", "a", "foo", "0", "xb", "ax1b", "cab"]:
+            try:
+                hit = [p for p in pats if _re.search(p, cand)]
+            except _re.error:
+                hit = []
+            if len(hit) >= 2:
+                out[cand] = gen_value(rng, pp[rng.choice(hit)], depth + 1)
+                break
     if rng.random() < 0.45:
         k = rng.choice(KEY_POOL + ["zz", "q", "class_", "a_b", "_id"])
         ap = s.get("additionalProperties", True)
